@@ -36,7 +36,7 @@ def _interp(pid, what, bounded, extra_assume=None, note=None):
         ] + (extra_assume or []),
     }
 
-_interp("C01", "Theorems C01_*: the assign cascade, reached through Ctx.set, puts into a destination of each kind exactly `convert` of the source's text / the source integer narrowed as Go narrows; absent sources leave the field alone or zero it. Tied to the code by running assignment-heavy programs over every source kind x destination kind on the real decoder and in the model.",
+_interp("C01", "Theorems C01_*: C01_vector_to_field_rule (rule level, end to end): after `obj.F = jso.path` the field holds the cascade's conversion of the value at the path, nothing else changes and the rule succeeds; the assign cascade, reached through Ctx.set, puts into a destination of each kind exactly `convert` of the source's text / the source integer narrowed as Go narrows; absent sources leave the field alone or zero it. Tied to the code by running assignment-heavy programs over every source kind x destination kind on the real decoder and in the model.",
         "220 programs quick / 2500 thorough per seed")
 _interp("C02", "Theorems C02_*: a field write touches one field of one object and nothing else in the context; writes to different fields commute; evaluation of sources is pure. Literal and getter results are values in the model; that the code does not alias them is what the correspondence (all permutations of independent rules, literal lengths 1..33) checks, with a direct oracle on the real decoder comparing all orderings.",
         "every permutation of 2-4 independent rules, 260 cases quick / 2600 thorough")
@@ -44,21 +44,21 @@ _interp("C03", "Theorems C03_*: a plain condition runs exactly the branch node_c
         "220 programs quick / 2500 thorough")
 _interp("C04", "Theorems C04_*: for valid headers the counter-loop driver equals one body execution per element of Go's counter sequence (int64 wrap included), nothing when the condition is false at entry, and (C04_variable_reads_go_value_everywhere, from the fuel induction follow_keeps through every driver) in every counter loop of every program, whatever its body, the loop variable reads that element in every iteration.",
         "220 programs quick / 2500 thorough; Go-finite headers only")
-_interp("C05", "Theorems C05_*: in every iteration of a range loop over a vector array or struct slice the key variable reads the index and the value variable the element; without signals the body runs once per element in order; absent sources give zero iterations.",
+_interp("C05", "Theorems C05_*: in every iteration of a range loop over a vector array or struct slice the key variable reads the index and the value variable the element; whatever the bodies do, the iterations entered are those of a prefix of the elements, in order, once each (C05_entered_iterations_are_a_prefix); without signals the body runs once per element; absent sources give zero iterations.",
         "220 programs quick / 2500 thorough", ["range over an EMPTY JSON array/object, a scalar or a literal null executes one iteration on an unrelated node in the vector dependency: known finding KF-C05-childless, replayed on every run, excluded from the theorems (the model answers EUnsupported)"])
 _interp("C06", "Theorems C06_*: continue / break abandon the rest of the iteration, lazybreak lets it finish; a pending break depth ends each enclosing loop before its next iteration and is consumed one level per loop, survives nested and sibling loops; and (C06_loop_never_returns_signal, from the fuel induction follow_sound) at any fuel, whatever the body, a loop statement never returns a loop signal to the rules around it.",
         "260 programs quick / 3000 thorough")
-_interp("C07", "Theorems C07_*: a classic switch runs the body of the first case whose comparison holds and looks at nothing after it; with no match only the first default runs.",
+_interp("C07", "Theorems C07_*: C07_switch_statement_outcome -- a classic switch statement does exactly one of: stop with the error of a case value, run the body of the first matching case and no other, run the default body when nothing matches and there is one, nothing; a classic switch runs the body of the first case whose comparison holds and looks at nothing after it; with no match only the first default runs.",
         "220 programs quick / 2500 thorough")
 _interp("C14", "Theorems C14_*: C14_reused_context_decodes_like_new -- a context with any past, once Reset and given the job's bindings, decodes any program at any fuel with any user functions to the same error, objects, variables and call sequence as a new context (Reset leaves a new context except the verdict cell bufBl; follow_respects, an induction on fuel through every driver, shows that no rule reads the incoming scratch cells). Job sequences on one context are run on the real decoder and compared job by job with the model and, as a direct oracle, with a newly created context.",
         "160 job sequences + 300 pool histories quick / 1800 + 5000 thorough")
 PROPS["C14"]["case_modules"] = ["theories/CasesInterp.v", "theories/CasesPool.v"]
-_interp("C15", "Theorems C15_*: a failing rule ends the rule sequence, the loop body, the counter loop and the range loop at once with its error, and the loop statement returns it; missing helpers and non-numeric bounds are errors; C15_user_error_is_last_call: with user functions that report their call number (proved of the harness's), a decode that returns a user function's error made no call after the failing one, in any rule, iteration or case (follow_sound, an invariant of ctx.Err by induction on fuel). For generated programs every k-th user call is made to fail on the real decoder; oracle: Decode returns that error and the call trace is the fault-free prefix.",
+_interp("C15", "Theorems C15_*: a failing rule ends the rule sequence, the loop body, the counter loop and the range loop at once with its error, and the loop statement returns it; missing helpers and non-numeric bounds are errors; C15_user_error_is_last_call: with user functions that report their call number (proved of the harness's), a decode that returns a user function's error made no call after the failing one, in any rule, iteration or case (follow_sound, an invariant of ctx.Err by induction on fuel); C15_failure_is_never_swallowed: a decode that returns anything but a user function's error has no failed call in its log (failed calls are marked in the log by model and harness alike), so a failing callback, getter, modifier or condition helper always makes Decode return a user function's error. For generated programs every k-th user call is made to fail on the real decoder; oracle: Decode returns that error and the call trace is the fault-free prefix.",
         "320 runs quick / 4000 thorough (every k up to 12 per program)")
 _interp("C16", "The model has no panic outcome: every list access of the decode path is a guarded match, arity errors are errors (C16_* theorems). That the code has no further panic site is decided by running parser-accepted programs from a malformed stream on the real decoder under recover and a watchdog (direct oracle) and comparing with the model.",
         "300 programs quick / 4000 thorough",
         note="PARTIAL on the proof side: Go panics (nil interface, slice bounds inside dependencies) are runtime facts the model cannot exhibit; they are searched for, not proved absent. ")
-_interp("C17", "Theorems C17_*: the vector handed to a function is exactly the list of the written arguments' values, in order, each evaluated on its own (earlier arguments cannot influence later ones); a coalesce source is the first listed key that is present and not null.",
+_interp("C17", "Theorems C17_*: the vector handed to a function is exactly the list of the written arguments' values, in order, each evaluated on its own (earlier arguments cannot influence later ones); a coalesce source is the first listed key that is present and not null; a chain of user modifiers is the left-to-right fold, each stage receiving the previous result (C17_modifier_chain_runs_left_to_right).",
         "220 programs quick / 2500 thorough")
 _interp("C18", "Theorems C18_*: default / ifThen / ifThenElse by emptiness and truth classes; atoi / atou / atob are strconv's parsers (Gallina re-implementations proved to round-trip with FormatInt / FormatUint on all of int64 / uint64), itoa / utoa format, crc32 is IEEE CRC-32 of the concatenation; arity errors; the builtin names are exactly those init() registers (Builtins.v regenerated from init.go, BuiltinFacts).",
         "260 programs quick / 3000 thorough; atof is compared on short decimals only", ["strconv and hash/crc32 are re-implemented in Gallina (theories/Strconv.v, Crc.v) and compared with Go's on ~20k strings by harness/sctest.sh"])
@@ -78,7 +78,7 @@ def _parser(pid, what, bounded, mods=None):
 
 _parser("C08", "Theorems C08_*: the parser model terminates on every byte string with fuel length+2 (proved through a progress lemma for every branch of processCtl), C08_accepted_is_balanced: for every byte string, if Parse returns no error the text's control lines (cut and classified as the parser does) are balanced -- so a missing or surplus closing brace or an else with no open block is rejected anywhere, under any nesting; a deleted opening brace is rejected by C08_opener_must_end_in_its_brace; an unregistered callback is rejected. Byte strings (random, token soups, mutations of fixtures and generated programs, every single-brace edit) are run through the real Parse under recover and a watchdog (direct oracle: tree or error; unbalanced programs rejected) and a sample through the model.",
         "4400 texts quick / 60000 thorough on the real parser, 180 / 6000 in the model")
-_parser("C09", "Theorems C09_*: leading layout (blanks, tabs, LF / CRLF, `;`), trailing blanks, comment lines and the final newline do not reach processCtl. PARTIAL on the proof side: spacing inside a line is decided by the regular expressions and is covered by the correspondence only: generated programs are rendered in all combinations of ten layout switches, every layout must parse to the canonical tree (direct oracle) and the model must produce the same tree.",
+_parser("C09", "Theorems C09_*: C09_same_lines_same_tree -- the tree and the error are a function of the sequence of control lines: two texts cut into the same control lines parse identically whatever else differs (indentation, blank lines, LF / CRLF, `;`, final newline); how lines are cut is settled for statements, block headers and comments (LayoutFacts); leading layout, trailing blanks, comment lines and the final newline do not reach processCtl. PARTIAL on the proof side only for spacing inside a line, which is decided by the regular expressions and is covered by the correspondence only: generated programs are rendered in all combinations of ten layout switches, every layout must parse to the canonical tree (direct oracle) and the model must produce the same tree.",
         "40 programs x 15 layouts quick / 400 x 65 thorough")
 _parser("C20", "Theorems C20_*: for every registry reachable by registering trees that Parse returned (or hand-made zero trees), Parse returns exactly what parsing the text returns, in every history; and it terminates. Histories of Parse / Register* over texts including the empty text, a blank text and equal-length different texts are replayed on the real package (oracle: same error, structurally identical tree, same decode, bytes untouched) and on the model.",
         "120 histories quick / 2500 thorough")
